@@ -175,7 +175,12 @@ impl HostTimer {
     }
 
     pub(crate) fn tick(&mut self, duration: Duration) {
-        self.elapsed += duration
+        self.elapsed += duration;
+        // The software has had its turn. Until its next one the host clock
+        // stands at the accumulated value: reading the runtime's `Instant`
+        // from outside the runtime (destructors run by `crash`, the software
+        // factory run by `bounce`) would measure wall time.
+        self.now = None;
     }
 
     /// Set a new `Instant` for each iteration of the simulation. `elapsed` is
@@ -191,7 +196,7 @@ impl HostTimer {
 
     /// Returns how long the host has been executing for in virtual time.
     pub(crate) fn elapsed(&self) -> Duration {
-        let run_duration = self.now.expect("host instant not set").elapsed();
+        let run_duration = self.now.map(|now| now.elapsed()).unwrap_or_default();
         self.elapsed + run_duration
     }
 
